@@ -169,4 +169,4 @@ Definition squeeze (s : state) : bytes :=
 
 Definition keccak256 (m : bytes) : bytes :=
   let p := pad m in
-  squeeze (absorb_all (S (length m / 136)) st0 p).
+  squeeze (absorb_all (S (Nat.div (length m) 136)) st0 p).
